@@ -236,6 +236,7 @@ func init() {
 			{Engine: "A", Scenario: "transfer", Quick: 10, Thorough: 120},
 			{Engine: "A", Scenario: "wiped-follower", Quick: 3, Thorough: 30},
 			{Engine: "A", Scenario: "promote-idle", Quick: 8, Thorough: 100},
+			{Engine: "A", Scenario: "promote-idle", Params: "gomaxprocs=1", Quick: 8, Thorough: 100},
 			{Engine: "A", Scenario: "readd-removed", Quick: 6, Thorough: 60},
 			{Engine: "A", Scenario: "leader-after-install", Params: "seg=1024", Quick: 6, Thorough: 60},
 		},
